@@ -210,6 +210,8 @@ def finish_c11(tier, seed, prof, recs, libs, known, t0, a, extra):
            "simulated_lifetimes": 3 * (total.get("lifetimes") or 0), "ops_executed_per_environment": total.get("ops_executed"),
            "lifetimes_per_hour": int(3600 * 3 * (total.get("lifetimes") or 0) / max(wall, 1e-9)),
            "faults_fired": total.get("faults", {}), "shapes_reached": total.get("shapes", {}),
+           "distinct_op_sequences": len(total.get("op_sequences", ())),
+           "simulated_engine_seconds_SI": total.get("simulated_engine_seconds"),
            "probes": {k: v for k, v in total.items() if k in ("setup_hit_loopcap",)},
            "real_components": ["strengths Python front end", "native engine built from /repo working tree with clang "
                                "-fsanitize=address,undefined -D_GLIBCXX_ASSERTIONS (and g++ -O2 for the plain twin)"],
